@@ -170,14 +170,31 @@ def gen(rng, knobs):
                                                 '["REQ","h",{"kinds":[[1]]}]', "[" * 3000 + "]" * 3000]), "crash"])
             hostile.append(["send", json.dumps(["REQ", "after", {"kinds": [1]}]), "probe"])
         good = [["wait", 2.0]] + good
+    stall = None
+    mt_override = None
+    if not flood and rng.random() < 0.08:
+        # a reader that stalls for longer than the idle time-out while it keeps WRITING: it is not idle, its
+        # connection stays usable, what was being sent arrives late but arrives, later commands are answered
+        flood = True
+        mt_override = rng.choice([5, 30])
+        stall = {"sends": [rng.choice([2, 2, 3])], "seconds": mt_override + rng.choice([1.5, 20.0])}
+        pre = [h.regular(kind=1) for _ in range(rng.randint(1, 3))]
+        live = h.regular(kind=1)
+        good = [["send", json.dumps(["REQ", "live", {"kinds": [1]}]), "good"]]
+        n_ticks = int(stall["seconds"] / (mt_override / 2.5)) + 3
+        for i in range(n_ticks):
+            good += [["wait", mt_override / 2.5], ["send", json.dumps(["CLOSE", "nope%d" % i]), "good"]]
+        good += [["send", json.dumps(["REQ", "after-stall", {"kinds": [1]}]), "good"]]
+        hostile = [["wait", 0.5], ["send", json.dumps(["EVENT", live]), "probe"]]
     faults = sorted(rng.sample(range(5, 120), rng.choice([0, 0, 0, 1, 2]))) if backend == "sql" and not flood else []
     limits = rng.choice([None, None, {"ip": {"EVENT": "3/s", "REQ": "4/s"}}, {"global": {"EVENT": "2/s"}, "ip": {"REQ": "2/s,5/m"}}])
     return {"backend": backend, "preload": pre, "faults": faults, "p_buffered": rng.choice([0.0, 0.3, 0.7, 1.0]),
             "rate_limits": limits, "via_api": rng.random() < 0.5, "same_address": rng.random() < 0.3,
-            "message_timeout": rng.choice([1800, 1800, 30, 5]),
+            "message_timeout": mt_override or rng.choice([1800, 1800, 30, 5]),
             "clients": [{"script": hostile, "slow": flood or rng.random() < 0.2, "close_fails": rng.random() < 0.2,
                          "origin": rng.choice(["", "", "https://client.example", "http://bad.actor", "HTTP://BAD.ACTOR"])},
-                        {"script": good, "slow": rng.random() < 0.2, "late": rng.random() < 0.3}],
+                        {"script": good, "slow": rng.random() < 0.2 and not stall, "late": rng.random() < 0.3 and not stall,
+                         "send_stall": stall}],
             "storage_opts": histgen.pool_knob(rng, backend),
             "sched": {**histgen.stall_knob(rng), "client": rng.choice([0.5, 1.0, 3.0]), "sql": rng.choice([0.3, 1.0, 3.0]),
                       "exec": rng.choice([0.2, 1.0]), "writer": rng.choice([0.2, 1.0]),
@@ -204,6 +221,7 @@ def run(case, sim):
         c["origin"] = case["clients"][i].get("origin", "")
         c["close_fails"] = case["clients"][i].get("close_fails", False)
         c["late"] = case["clients"][i].get("late", False)
+        c["send_stall"] = case["clients"][i].get("send_stall")
         if case.get("same_address"):
             c["addr"] = "10.9.9.9"          # both connections behind one NAT / proxy address
     w = relay.RelayWorld(sim, backend, clients, preload=case.get("preload"), p_buffered=case.get("p_buffered", 0.0),
